@@ -44,7 +44,7 @@ TECHNIQUE = "stateful model-based histories (Hypothesis) against the real Secure
 RULE = (
     "history = handshake (connect, SessionResponse, wrapped SessionStatus) with generated noise before / inside / after it, then up to 14 ops: wrapped frame (inner service from a catalogue of all service types, nested wrapper, remote diagnosis; "
     "several frames coalesced into one TCP chunk (in particular a server-side SessionStatus of any code followed by plain / wrapped frames, which are still handled before connection_lost runs), "
-    "sequence mode next/skip/same/old/zero/big/max; flaw none/MAC/ciphertext/sequence field/session id (wrapped for another id, or id field overwritten)/key), plain frame of any service, client send, idle 51..61 s, stop, reconnect; "
+    "sequence mode next/skip/same/old/zero/big/max; flaw none/MAC/ciphertext/sequence field/session id (wrapped for another id, or id field overwritten)/key), plain frame of any service, client send, idle 51..61 s, stop, reconnect; optionally the send counter is set to a generated start value (2^48-1-k, around the 2^8..2^40 octet boundaries) before a run of sends / idle periods / stop; "
     "non-trivial = session initialised and at least one wrapped frame that must be rejected (replayed/old number, forged, forbidden or plain) was delivered after initialisation together with at least one that must be accepted; distinct by history"
 )
 LEVEL_TEXT = "Generated receive/send histories around the handshake are run against the real SecureSession in virtual time; the frames handed to callbacks and the bytes written to the transport are compared with a freshness model and with the independent reference implementation of the wrapper. Sampled, not exhaustive."
@@ -56,6 +56,7 @@ ASSUMPTIONS = [
     "a plain SessionResponse between initialisation and successful authentication may be passed on or dropped (statement: 'before authentication'); after authentication it must be dropped",
     "exceptions raised by the receive path (a SecureWrapper before the session is initialised raises CouldNotParseKNXIP out of data_received) are counted in the evidence notes, not judged: C29 does not state a no-raise clause",
     "callback frames are compared through KNXIPFrame.to_knx() (codec judged by C20/C21)",
+    "the start value of the send counter is injected after the handshake (session._sequence_number set to a generated value >= its current value: 2^48-1-k, octet boundaries 2^8..2^40 +-2; 0 mostly) because 2^48 frames cannot be generated; the verdict still comes from the wire only. A send the library refuses (IPSecureError / CommunicationError to the caller of send()/stop(), or IPSecureError ending the keepalive task) with nothing on the wire is not a violation",
     "after the server ended the session (accepted wrapped SessionStatus CLOSE / TIMEOUT / UNAUTHENTICATED after authentication) the rest of the chunk is still handled: nothing plain may be passed on (authentication has happened), wrapped frames only if genuine and fresh; that they must still be passed on is not demanded. Frames behind a frame that made data_received raise are not demanded either",
     "after transport.close() no further data_received call reaches the client (as with real asyncio transports): frames following a server-side close in a later loop iteration are generated but not delivered",
 ]
@@ -301,8 +302,16 @@ def execute(case):
                 try:
                     session.stop()
                     events.append(("stop",))
+                except (IPSecureError, CommunicationError) as e:
+                    events.append(("stop-refused", type(e).__name__, exc_site(e)))
                 except Exception as e:  # noqa: BLE001
                     events.append(("stopexc", exc_site(e), repr(e)))
+            elif kind == "setseq":
+                # start value of the send counter, injected (2^48 frames cannot be generated); never lowered
+                if session.initialized and hasattr(session, "_sequence_number"):
+                    v = max(int(op[2]), session._sequence_number)
+                    session._sequence_number = v
+                    events.append(("setseq", v))
             else:
                 raise HarnessError(f"unknown op {op}")
 
@@ -313,6 +322,8 @@ def execute(case):
         await asyncio.sleep(float(case.get("tail", 12.0)))
         try:
             session.stop()
+        except (IPSecureError, CommunicationError) as e:
+            events.append(("stop-refused", type(e).__name__, exc_site(e)))
         except Exception as e:  # noqa: BLE001
             events.append(("stopexc", exc_site(e), repr(e)))
         if connect_task[0] is not None and not connect_task[0].done():
@@ -426,6 +437,10 @@ def judge(ctx, case, events, frames, escaped, cfg) -> dict:
     info = {"init": False, "auth": False, "must_reject": 0, "must_accept": 0, "keepalive": 0, "epochs": 0, "tx_wrapped": 0, "srv_closed": False, "after_server_close": 0}
     for e in escaped:
         exc = e["exception"]
+        if type(exc).__name__ == "IPSecureError":
+            # the keepalive task refusing to send (exhausted counter) ends with IPSecureError: a refused send, nothing on the wire
+            ctx.notes["send_refused_in_keepalive_task"] = ctx.notes.get("send_refused_in_keepalive_task", 0) + 1
+            continue
         ctx.fail(f"C29:escaped:{exc_site(exc) if exc is not None else e['message'][:40]}", inp, e["repr"] + " " + e["message"])
     sid = cfg["sid"]
     # group callbacks by delivered frame
@@ -451,6 +466,10 @@ def judge(ctx, case, events, frames, escaped, cfg) -> dict:
         elif kind == "rxexc":
             key = f"receive_raised:{ev[2]}"
             ctx.notes[key] = ctx.notes.get(key, 0) + 1
+        elif kind == "stop-refused":
+            ctx.notes["stop_refused:" + ev[1]] = ctx.notes.get("stop_refused:" + ev[1], 0) + 1
+        elif kind == "setseq":
+            info["setseq"] = max(info.get("setseq", 0), ev[1])
         elif kind in ("sendexc", "stopexc"):
             ctx.fail(f"C29:{kind}:{ev[-2]}", inp, ev[-1])
         elif kind == "tx":
@@ -577,6 +596,16 @@ def _status_op(dt=_dt):
     return st.tuples(dt, st.just("wrap"), st.sampled_from(list(STATUS)), st.sampled_from(["next", "next", "skip"]), st.just("none"))
 
 
+SEQ_STARTS = sorted({MAX_SEQ - k for k in range(0, 5)} | {2 ** (8 * b) + d for b in range(1, 6) for d in (-2, -1, 0, 1)})
+_seq_start = st.one_of(st.sampled_from([MAX_SEQ - k for k in range(0, 4)]), st.sampled_from(SEQ_STARTS))
+
+
+def _setseq_then_sends():
+    """Inject the start value of the send counter, then exercise the send paths (requests, keepalive idle, stop)."""
+    sends = st.lists(st.one_of(_send_op(_dt_short), _send_op(_dt_short), _send_op(st.sampled_from([51000, 61000])), _wrap_op(_dt_short)), min_size=1, max_size=6)
+    return st.tuples(_seq_start, sends).map(lambda t: [(1, "setseq", t[0]), *t[1]])
+
+
 def _noise(dt=_dt_short, n=3):
     return st.lists(st.one_of(_plain_op(dt), _plain_op(dt), _wrap_op(dt), _send_op(dt), _resp_op(dt)), max_size=n)
 
@@ -592,6 +621,9 @@ def histories(draw):
     if draw(st.integers(0, 9)) > 0:
         ops.append((draw(st.sampled_from([1, 5, 100])), "wrap", "status_ok", "next", "none"))
     body = draw(st.lists(st.one_of(_wrap_op(), _wrap_op(), _wrap_op(), _plain_op(), _send_op(), _resp_op(), _chunk_op(), _chunk_op(), _status_op()), min_size=1, max_size=14))
+    if draw(st.integers(0, 3)) == 0:  # send counter mostly starts at 0
+        pos = draw(st.integers(0, len(body)))
+        body[pos:pos] = draw(_setseq_then_sends())
     ops += body
     if draw(st.integers(0, 3)) == 0:
         ops.append((draw(_dt), "stop"))
@@ -622,6 +654,10 @@ def _labels(case, info) -> list[str]:
             cl.append("keepalive-sent")
         if info["epochs"] > 1:
             cl.append("reconnect")
+        if info.get("setseq"):
+            cl.append("send-counter-start-injected")
+            if info["setseq"] >= MAX_SEQ - 8:
+                cl.append("send-counter-near-2^48")
         if info["srv_closed"]:
             cl.append("server-side-close-accepted")
         if info["after_server_close"]:
@@ -698,6 +734,25 @@ def _sweep_shard(ctx, part: int) -> None:
                 if info and info["auth"] and info["must_reject"] and info["must_accept"]:
                     nt += 1
     ctx.bulk(n, nt, "sweep:server-status-then-any-frame")
+    # send counter start values x send paths (requests, keepalive after 51 s idle, STATUS_CLOSE from stop)
+    n = nt = 0
+    for vi, v in enumerate(SEQ_STARTS):
+        if vi % 4 != part:
+            continue
+        paths = {
+            "requests": [[1, "send", "tunnelling_request"], [0, "send", "connectionstate_request"], [5, "send", "tunnelling_ack"], [5, "send", "disconnect_request"]],
+            "keepalive": [[1, "send", "tunnelling_request"], [51000, "send", "connectionstate_request"], [61000, "wrap", "tunnelling_ack", "next", "none"]],
+            "stop": [[1, "send", "tunnelling_request"], [5, "stop"]],
+            "keepalive-only": [[120000, "wrap", "tunnelling_ack", "next", "none"]],
+        }
+        for pname, tail_ops in paths.items():
+            case = {"user": 0, "dev": vi % 3, "user_id": 2, "sid": 1 + vi, "skey": vi % 3, "ckey": vi, "tail": 61.0, "ops": HANDSHAKE + [[5, "wrap", "tunnelling_request", "next", "none"], [1, "setseq", v], *tail_ops]}
+            info = check_case(ctx, case)
+            n += 1
+            if info and info["auth"] and info["tx_wrapped"] > 1:
+                nt += 1
+    ctx.bulk(n, nt, "sweep:send-counter-start-values")
+    ctx.sample({"sweep": "handshake, send counter set to 2^48-1-k / 2^(8b)+d, then requests / keepalive / stop", "part": part})
     ctx.sample({"sweep": "handshake, wrapped SessionStatus <code>, then plain X / SessionResponse / wrapped frame in the same chunk, next iteration, later", "part": part})
 
 
